@@ -111,10 +111,11 @@ def pipeline(task, world, state, symbolic):
         if symbolic:
             tp.float = core.sym_float
         try:
+            kw = {"strict_trajectory_validation": True} if task.get("strict") else {}  # the optional strict reading of the file
             if agents is None:
-                obs = parser.parse_trajectory(path)
+                obs = parser.parse_trajectory(path, **kw)
             else:
-                obs = parser.parse_trajectory(path, executing_agents=agents)
+                obs = parser.parse_trajectory(path, executing_agents=agents, **kw)
         finally:
             if symbolic:
                 del tp.float
@@ -303,7 +304,7 @@ def tasks_for(tier, seed):
     singles = singles[: (60 if tier == "quick" else 400)]
     for i, p in enumerate(singles):
         for with_problem in (True, False):
-            tasks.append({"kind": "single", "plan": p, "allow": bool((i + with_problem) % 2), "with_problem": with_problem,
+            tasks.append({"kind": "single", "plan": p, "allow": bool((i + with_problem) % 2), "with_problem": with_problem, "strict": i % 3 == 1,
                           "extra_fluents": EXOTIC_FLUENTS[: 1 + i % 7], "extra_atoms": 1 + i % 2,
                           "cap": 8 if tier == "quick" else 10, "max_paths": 800 if tier == "quick" else 6000,
                           "sym_atoms": 6 if tier == "quick" else 8})
@@ -326,7 +327,7 @@ def tasks_for(tier, seed):
     joints = joints[: (40 if tier == "quick" else 300)]
     for i, j in enumerate(joints):
         plan = [j] if i % 2 else [j, rng.choice(joints)]
-        tasks.append({"kind": "joint", "plan": plan, "with_problem": bool(i % 3), "extra_fluents": EXOTIC_FLUENTS[: 1 + i % 7],
+        tasks.append({"kind": "joint", "plan": plan, "with_problem": bool(i % 3), "strict": i % 4 == 1, "extra_fluents": EXOTIC_FLUENTS[: 1 + i % 7],
                       "extra_atoms": 1 + i % 2, "cap": 8 if tier == "quick" else 10, "max_paths": 800 if tier == "quick" else 6000,
                       "sym_atoms": 6 if tier == "quick" else 8})
     return tasks
